@@ -13,15 +13,14 @@ package fileutil
 //@ ghostset gFlagDir := ite(result == nil, dir, old(gFlagDir))
 
 
-//@ func MkdirAll [C04 C16]
-//@ trusted file-system effects only (creates the directory and its parents, syncing each)
 
 // ---------------------------------------------------------------- creating a directory durably (C16)
 // gDirtyDir: the directory (path) whose entry list changed and has not been fsynced since ("" = none).
 // A new directory's entry lives in its PARENT; that is the directory that must be synced.
 //@ ghost var gDirtyDir int
+// (filepath.Dir never returns the empty string: "." or the root at least)
 //@ extern github.com/lni/vfs (fs FS) PathDir
-//@ ensures result == uf("pathdir", path)
+//@ ensures result == uf("pathdir", path) && result != 0
 //@ extern github.com/lni/vfs (fs FS) MkdirAll
 //@ ghostset gDirtyDir := uf("pathdir", dir)
 //@ func DirExist [C16]
@@ -30,9 +29,17 @@ package fileutil
 //@ trusted opens the directory and fsyncs it (file-system effect only)
 //@ ghostset gDirtyDir := ite(result == nil && old(gDirtyDir) == dir, 0, old(gDirtyDir))
 
-//@ func Mkdir [C16]
+//@ func Mkdir [C16 C10]
 //@ noframe
-//@ requires gDirtyDir == 0 && uf("pathdir", dir) != dir && uf("pathdir", dir) != 0
+//@ requires gDirtyDir == 0
+//@ modifies gDirtyDir
+//@ ensures result == nil ==> gDirtyDir == 0
+
+// creating a directory with all its missing parents: every directory entry created is made durable
+// (each level through Mkdir, parents first), so on success nothing is left unsynced
+//@ func MkdirAll [C04 C16 C10]
+//@ noframe
+//@ requires gDirtyDir == 0
 //@ modifies gDirtyDir
 //@ ensures result == nil ==> gDirtyDir == 0
 
